@@ -10,13 +10,13 @@ import (
 )
 
 func init() {
-	register(&Rule{ID: "C16.R1", Min: 55,
+	register(&Rule{ID: "C16.R1", Min: 36,
 		Text: "wrapper agreement: every exported BigInt method's slow path calls the math/big.Int method of the same name on the receiver's inner view, passing each *BigInt parameter's inner view in the same position and every other parameter unchanged; the receiver's view is never a read-only argument",
 		Run:  ruleBigWrappers})
-	register(&Rule{ID: "C16.R2", Min: 55,
+	register(&Rule{ID: "C16.R2", Min: 36,
 		Text: "inner/updateInner pairing: after a mutating math/big call every written view (receiver and documented out-parameters) is written back with updateInner on the same BigInt before every return that reports success; non-mutating methods never write back",
 		Run:  ruleUpdateInnerPairing})
-	register(&Rule{ID: "C16.R3", Min: 8,
+	register(&Rule{ID: "C16.R3", Min: 4,
 		Text: "zero is never negative: every uint64 fast-path helper returns neg=false or a neg that is conditioned on the returned magnitude being non-zero, and a store of the negative sentinel is guarded by a non-zero test of the inline words",
 		Run:  ruleNoNegativeZero})
 }
